@@ -51,6 +51,16 @@ func (ls *loopstack) Pop() {
 	*ls = (*ls)[:len(*ls)-1]
 }
 
+// InLoop returns true if any enclosing block is a real loop (for/while)
+func (ls loopstack) InLoop() bool {
+	for i := range ls {
+		if ls[i].Type == loopLoop {
+			return true
+		}
+	}
+	return false
+}
+
 // Return current loop or nil for none
 func (ls loopstack) Top() *loop {
 	if len(ls) == 0 {
@@ -1229,8 +1239,7 @@ func (c *compiler) Stmt(stmt ast.Stmt) {
 	case *ast.Pass:
 		// Do nothing
 	case *ast.Break:
-		l := c.loops.Top()
-		if l == nil {
+		if !c.loops.InLoop() {
 			c.panicSyntaxErrorf(node, "'break' outside loop")
 		}
 		c.Op(vm.BREAK_LOOP)
